@@ -32,6 +32,14 @@ val128 = RecFunction('val128', S, I)
 RecAddDefinition(val128, [_s], If(Length(_s) <= 0, IntVal(0),
                                   128 * val128(z3.Extract(_s, IntVal(0), Length(_s) - 1)) + _s[Length(_s) - 1] % 128))
 
+# left fold of base-256 digits onto an accumulator: fold256(a, s) = (...((a*256 + s[0])*256 + s[1])...)
+# fold256(0, s) is the unsigned big-endian value; fold256(-1, s) the two's complement value of a string whose sign bit
+# is set (X.690 8.3.3 / 8.5.7.4: sign-extend, then read big-endian)
+_a = Int('_a')
+fold256 = RecFunction('fold256', I, S, I)
+RecAddDefinition(fold256, [_a, _s], If(Length(_s) <= 0, _a,
+                                       fold256(256 * _a + _s[0], z3.Extract(_s, IntVal(1), Length(_s) - 1))))
+
 # big-endian value of the n elements of s starting at lo (no sub-sequence terms: friendlier to the solver)
 _lo = Int('_lo')
 _n = Int('_n')
@@ -173,6 +181,11 @@ class XNS:
         return any_(z if z is not None else Empty(S))
 
     @staticmethod
+    def fold256(ex, a, s):
+        """((a*256 + s[0])*256 + s[1])... : big-endian digits folded onto the accumulator a (a = -1: sign extension)"""
+        return fold256(toint(a), z_of(s))
+
+    @staticmethod
     def sub(ex, s, lo, hi):
         """s[lo:hi] for 0 <= lo <= hi (z3 extract; out-of-range clamps like python)"""
         z = z_of(s)
@@ -189,6 +202,14 @@ class XNS:
         s, m, e = toint(s), toint(m), toint(e)
         return Implies(And(0 <= s, s <= m, m <= e, e <= Length(z)),
                        Concat(z3.Extract(z, s, m - s), z3.Extract(z, m, e - m)) == z3.Extract(z, s, e - s))
+
+    @staticmethod
+    def lemma_fold256_step(ex, a, s):
+        """definition of fold256 unfolded once: for non-empty s, fold256(a, s) == fold256(256*a + s[0], s[1:])"""
+        z = z_of(s)
+        a = toint(a)
+        return Implies(Length(z) > 0,
+                       fold256(a, z) == fold256(256 * a + z[0], z3.Extract(z, IntVal(1), Length(z) - 1)))
 
     @staticmethod
     def lemma_extract_extract(ex, d, b, l, c, k):
